@@ -56,6 +56,11 @@ def points(tier):
                     for c in C:
                         for r in R:
                             pts.append({"kind": "wrapflag", "d": d, "c": c, "r": r, "engine": eng, "sign": sign, "noise": None})
+            # round 8: WRAP YES declared, no curve declared at all, default options (both engines): the only source of
+            # the column count is the data, whose uniform lines become c unnamed curves of r rows
+            for c in C:
+                for r in R:
+                    pts.append({"kind": "wrapflag", "d": 0, "c": c, "r": r, "engine": eng, "sign": sign, "noise": None, "defaultopt": True})
             # the dtypes= option (dict by mnemonic / list by position) over every small shape: when such a read succeeds
             # it binds the columns like any other read (a read that raises is outside the statement)
             for d in range(1, 5):
@@ -207,7 +212,7 @@ def check_point(pt):
 
     try:
         rkw = {"ignore_data_comments": pt["marker"]} if pt.get("marker") else {}
-        if pt["kind"] == "wrapflag":
+        if pt["kind"] == "wrapflag" and not pt.get("defaultopt"):
             rkw["use_normal_engine_for_wrapped"] = False
         if pt.get("case"):
             rkw["mnemonic_case"] = pt["case"]
